@@ -5,6 +5,11 @@ Streams (model `Lint.lintScript` vs `model.lint_script`, exact list equality of 
   lint-structured  grammar-directed random BareScript source parsed by the real `parse_script`
   lint-jump        random hand-built jump-level models (schema-validated) with user labels, duplicate labels, dangling
                    jumps, duplicate functions / arguments, unused labels, effect-free expression statements
+  lint-flow-sites  read-site matrix: one function-local variable / argument x how it is bound x the ONE syntactic site that
+                   reads it x the expression context of the read x textual order; every read reaches a sink (log, global,
+                   result), so a wrong 'unused' verdict for it changes a run (quick: all pairs + sample, thorough: full product)
+  lint-flow-random random data-flow functions: small variable pools with per-variable read profiles (never read / only in
+                   own updates / only in conditions / only as callee / ...), reads routed through sinks
   lint-shipped     every shipped include/*.bare
   lint-nested      jump-level models with function statements nested in function bodies (known finding F19)
 
@@ -1060,10 +1065,10 @@ def flow_random_cases(rng, n):
     return out
 
 
-def binding_liveness(model, stats):
-    """For every variable assigned in / argument of a top-level function: does renaming its binding sites change the run?
-    (That is the observable meaning of 'used'; a warning for such a variable is what the semantic oracle rejects.)
-    -> number of bindings whose renaming is observable."""
+def binding_liveness(model, stats, only=None):
+    """For every variable assigned in / argument of a top-level function (`only`: just this name; the generators' loop counters
+    are skipped): does renaming its binding sites change the run?  (That is the observable meaning of 'used'; a warning for
+    such a variable is what the semantic oracle rejects.)  -> number of bindings whose renaming is observable."""
     base = None
     live = 0
     for ix, st in enumerate(model['statements']):
@@ -1073,6 +1078,8 @@ def binding_liveness(model, stats):
         assigned = sorted({s['expr']['name'] for s in fn['statements'] if 'expr' in s and 'name' in s['expr']})
         for kind, names in (('unused-var', assigned), ('unused-arg', sorted(set(fn.get('args') or [])))):
             for nm in names:
+                if (nm != only) if only else nm.startswith(('turn', 'fe', '__bareScript')):
+                    continue
                 ed = apply_edit(model, {'kind': kind, 'scope': ix, 'name': nm})
                 if ed is None:
                     continue
@@ -1226,12 +1233,14 @@ def run_cases(ctx, name, rule, cases, semantic_cap=8, liveness=False):
         tags = tags_of(parsed, model)
         nontrivial = bool(parsed)
         if liveness:
-            live = binding_liveness(model, stats)
+            focus = cid.split(':') if isinstance(cid, str) and cid.startswith('flow:') else None
+            live = binding_liveness(model, stats, only=focus[1] if focus else None)
             nontrivial = live > 0
-            tags.append('live-bindings%d' % min(live, 4))
-            if isinstance(cid, str) and cid.startswith('flow:'):
-                _, _, bind, site, wrap, order = cid.split(':')
-                tags += ['bind:' + bind, 'site:' + site, 'wrap:' + wrap, 'order:' + order] if live else ['site-not-observable']
+            if focus:    # the matrix: is the ONE read of the focus variable observable (would a wrong warning for it be noticed)?
+                _, _, bind, site, wrap, order = focus
+                tags += ['bind:' + bind, 'site:' + site, 'wrap:' + wrap, 'order:' + order] if live else ['read-not-observable']
+            else:
+                tags.append('live-bindings%d' % min(live, 4))
         st.case(canon_script(model), nontrivial=nontrivial, tags=tags)
     for k, v in sorted(stats.items()):
         st.hist['stat:' + k] = st.hist.get('stat:' + k, 0) + v
@@ -1310,7 +1319,7 @@ def streams(ctx):
               'position / any mix); expressions route reads through sinks (logging user function, systemGlobalSet, arrayPush on a '
               'global array, a helper function, function-valued variables) inside if / elif / while / for / jumpif / break / continue; '
               'non-trivial = renaming the binding of at least one variable changes the run',
-              flow_random_cases(rng, ctx.scale(1500, 12000)), semantic_cap=1000, liveness=True)
+              flow_random_cases(rng, ctx.scale(1200, 12000)), semantic_cap=1000, liveness=True)
 
     run_cases(ctx, 'lint-pointless-shapes', 'ALL unassigned expression statements whose expression is a tree of depth <= 2 (thorough: 3) over '
               '{variable, number, call bump(), group, unary -, unary !, binary + and &&} with at most 3 leaves, in a script that defines '
@@ -1360,17 +1369,21 @@ def search(ctx):
             ctx.witness(oracle, jsonable(input_), jsonable(expected), jsonable(actual), stream='search', **extra)
     for _, model in corpus_models():
         check_model(model, report, stats)
+    for _, text in flow_matrix(rng, full=True):     # the whole read-site matrix
+        if len(ctx.witnesses) >= 5:
+            return
+        check_model(fw.impl()['parser'].parse_script(text), report, stats, semantic_cap=1000)
     for i in range(ctx.scale(3000, 30000)):
         if len(ctx.witnesses) >= 5:
             return
-        if i % 2:
+        if i % 3 == 1:
             model = JumpGen(rng).model()
         else:
-            got = structured_cases(rng, 1)
+            got = structured_cases(rng, 1) if i % 3 else flow_random_cases(rng, 1)
             if not got:
                 continue
             model = got[0][1]
-        check_model(model, report, stats)
+        check_model(model, report, stats, semantic_cap=1000 if i % 3 == 0 else 8)
 
 
 def replay(witness):
